@@ -290,6 +290,77 @@ def h_f64_from_int(engine, st, fr, callee, argv, m):
     return F64(z3.fpUnsignedToFP(z3.RNE(), v.e, z3.Float64()))
 
 
+# ---- scratch buffer as a symbolic text log (used by the std float path)
+
+def h_vec_clear(engine, st, fr, callee, argv, m):
+    st.notes["scratch"] = ()
+    return UnitV()
+
+
+def h_itoa_new(engine, st, fr, callee, argv, m):
+    return Opaque("itoa::Buffer", "buf", {})
+
+
+def h_itoa_format(engine, st, fr, callee, argv, m):
+    return Opaque("str", "itoa", {"val": argv[1]})
+
+
+def h_passthrough(engine, st, fr, callee, argv, m):
+    return argv[0]
+
+
+def h_vec_extend(engine, st, fr, callee, argv, m):
+    src = argv[1]
+    if isinstance(src, Opaque) and src.label == "itoa":
+        item = ("itoa", src.attrs["val"])
+    else:
+        bs = bytes_of(engine, src)
+        if bs is None:
+            raise Unsupported("extend_from_slice of %r" % (src,))
+        item = ("lit", bs)
+    st.notes["scratch"] = st.notes.get("scratch", ()) + (item,)
+    return UnitV()
+
+
+def h_vec_push(engine, st, fr, callee, argv, m):
+    st.notes["scratch"] = st.notes.get("scratch", ()) + (("byte", argv[1]),)
+    return UnitV()
+
+
+def h_vec_deref(engine, st, fr, callee, argv, m):
+    return Opaque("bytes", "scratch", {"content": st.notes.get("scratch", ())})
+
+
+def h_str_parse_f64(engine, st, fr, callee, argv, m):
+    f = engine.sym_f64("stdparse")
+    is_err = z3.Bool("stdparse_err_%d" % next(engine.fresh))
+    st.events.append(("std_parse", argv[0].attrs.get("content") if isinstance(argv[0], Opaque) else None, f.e))
+    st.pc.append(z3.Not(z3.fpIsNaN(f.e)))
+    engine.solver.add(z3.Not(z3.fpIsNaN(f.e)))
+    return mk_result(engine, is_err, f, Opaque("ParseFloatError", "pfe", {}))
+
+
+def h_map_err_range(engine, st, fr, callee, argv, m):
+    r = argv[0]
+    code = EnumV("ErrorCode", engine.enums["ErrorCode"].index("NumberOutOfRange"), {})
+    err = Opaque("Error", "syntax", {"kind": "syntax", "code": code, "via": "map_err closure"})
+    return EnumV("Result", r.discr, {0: list(r.variants.get(0, [UNINIT])), 1: [err]})
+
+
+SCRATCH_STUBS = [
+    (rx(r"^Vec::<u8>::clear$"), h_vec_clear),
+    (rx(r"^itoa::Buffer::new$"), h_itoa_new),
+    (rx(r"^itoa::Buffer::format::<\w+>$"), h_itoa_format),
+    (rx(r"^core::str::<impl str>::as_bytes$"), h_passthrough),
+    (rx(r"^Vec::<u8>::extend_from_slice$"), h_vec_extend),
+    (rx(r"^Vec::<u8>::push$"), h_vec_push),
+    (rx(r"^<Vec<u8> as Deref>::deref$"), h_vec_deref),
+    (rx(r"^(?:core::str::|std::str::)?from_utf8_unchecked$"), h_passthrough),
+    (rx(r"^core::str::<impl str>::parse::<f64>$"), h_str_parse_f64),
+    (rx(r"^std::result::Result::<f64, ParseFloatError>::map_err::"), h_map_err_range),
+]
+
+
 CORE_STUBS = [
     (rx(r"^(?:(?:std|core)::)?f64::<impl f64>::powi$"), h_powi),
     (rx(r"^<f64 as From<(u8|u16|u32|i8|i16|i32)>>::from$"), h_f64_from_int),
